@@ -8,6 +8,7 @@ EXTENDS Integers, Sequences, FiniteSets, SequencesExt
 (* in (this is what a later listing of the mount sees before any Reset).       *)
 Catalogue == { "deep",      \* path far beyond PATH_MAX (25 x 200-byte components)
                "deepshort", \* 1500 nested one-byte directories
+               "abyss",     \* 6000 nested one-byte directories (deeper than a 4096 descriptor limit)
                "mode000",   \* mode-000 directories with content
                "dot",       \* hidden names: .hidden  ..x  .../
                "symout",    \* symlinks leaving the mount (/proc, ../, a loop)
@@ -23,6 +24,12 @@ TopCount(k) ==
   CASE k = "many" -> 5000
     [] k \in {"dot", "symout", "hardlink", "oddname"} -> 3
     [] OTHER -> 1
+
+(* Depth of the directory chain a kind creates.  os.RemoveAll keeps one descriptor per    *)
+(* level open, so a chain deeper than RLIMIT_NOFILE of the container init cannot be       *)
+(* removed (implementation layer; the property layer still demands that it is gone).      *)
+ChainDepth(k) == CASE k = "abyss" -> 6000 [] k = "deepshort" -> 1500 [] k = "deep" -> 26 [] OTHER -> 8
+Unremovable(k, nofile) == ChainDepth(k) + 64 >= nofile
 
 (* A container configuration: tmpfs mount targets in configuration order,     *)
 (* parent[i] = index of the tmpfs mount that contains target i (0: it lies in  *)
